@@ -27,6 +27,7 @@ structure DState where
   persist : PersistDrv := {}
   poolbin : PoolBinDrv := {}
   cache : CacheDrv := {}
+  ethKind : String := "geth"
 
 def stepLine (st : DState) (line : String) : DState × String :=
   let toks := (line.trimAscii.toString.splitOn " ").filter (· ≠ "")
@@ -47,7 +48,7 @@ def stepLine (st : DState) (line : String) : DState × String :=
   | "poolbin" :: args => let (s, o) := poolBinStep st.poolbin args; ({ st with poolbin := s }, o)
   | "persist" :: args => let (s, o) := persistStep st.persist args; ({ st with persist := s }, o)
   | "rpc" :: args => let (s, o) := rpcStep st.rpc args; ({ st with rpc := s }, o)
-  | "ethrpc" :: args => (st, ethRpcStep args)
+  | "ethrpc" :: args => let (k, o) := ethRpcStep st.ethKind args; ({ st with ethKind := k }, o)
   | "cache" :: args => let (s, o) := cacheStep st.cache args; ({ st with cache := s }, o)
   | "agentlife" :: args => let (s, o) := lifeDrvStep st.life args; ({ st with life := s }, o)
   | ["noop"] => (st, "noop")
